@@ -237,9 +237,9 @@ PROPS["C25"] = {
         "carriers (R6) for the spilled-sort regions: RecordBatch = a range of rows (num_rows, slice with its bounds precondition asserted), Vec = small list, run readers yield the following batches of their run, build_merged_batch = take(row i of the batch currently in run_buffers[run]); evaluate_expr / read_parquet / merge_runs are oracles",
     ],
     "not_under_contract": ["Arrow's lexsort_to_indices / take themselves (the dependency's: what they are ASKED for is under contract, not what they do)", "SortExec::execute around sort_batch (input collection, concat_batches, Utf8 promotion)", "the minimum search across runs and build_merged_batch / build_merged_batch_final bodies (Arrow take/concat)", "multi_pass_merge file handling"],
-    "technique": "Verus on the verbatim LimitState methods with RecordBatch as a carrier type and a ghost consumed-rows counter; Kani on three verbatim regions of the spilled sort compiled against carrier types (bounded in list lengths, labelled)",
-    "level_text": "Deductive and unbounded for LIMIT/OFFSET: every skip/fetch pair, every batch size and every split of the input into batches.",
-    "level_note": "Trusted: Verus/Z3; two carrier contracts on arrow RecordBatch; the async unfold loop and Arrow's sort kernels are outside.",
+    "technique": "Verus on the verbatim LimitState methods with RecordBatch as a carrier type and a ghost consumed-rows counter; Kani on verbatim regions / whole bodies (bind_order_by defaults, the planner's Limit arm, both sort_batch functions, the spilled sort's comparator, merge step and fetch) compiled against carrier types that record what the Arrow dependency is asked for",
+    "level_text": "Deductive and unbounded for LIMIT/OFFSET arithmetic (every skip/fetch pair, batch size and batch split), for the binder's direction / NULL-placement defaults, for the planner's Sort+Limit fusion and for the per-key merge comparator (loop-free, full domain). The sort requests, the merge step, the multi-key comparator loop and the spilled fetch are decided for bounded list lengths (<= 3 keys / columns / batches / queued rows), labelled bounded.",
+    "level_note": "Trusted: Verus/Z3, Kani/CBMC; carrier contracts on arrow RecordBatch, lexsort_to_indices, take, make_comparator (what they are asked for is under contract, what they do is the dependency's); the async operator plumbing is outside.",
 }
 
 # ------------------------------------------------------------------ C21
